@@ -70,6 +70,10 @@ fn main() {
             write_ndjson(arg(&args, "--out").expect("--out"), &out);
         }
         #[cfg(not(feature = "stateless"))]
+        "poseidon-consts" => {
+            std::fs::write(arg(&args, "--out").expect("--out"), serde_json::to_string(&hash_exec::dump_consts()).unwrap()).unwrap();
+        }
+        #[cfg(not(feature = "stateless"))]
         "graphs" => {
             let mut out = Vec::new();
             ops_exec::run_graphs(arg(&args, "--seed").unwrap_or("1").parse().unwrap(), arg(&args, "--count").unwrap_or("150").parse().unwrap(), &mut out);
